@@ -527,9 +527,35 @@ struct B {
 
 // LeakSanitizer's recoverable check reports a leaked block again at every later check: after the first report
 // the process cannot attribute leaks any more and prints 2 ("not judged") for the remaining cases of the batch.
+// A block leaked by the case just run can still look reachable through a stale copy of its address in a dead stack
+// frame or in a scratch register (seen: the upper half of xmm3, left there by a 16-byte move of {vptr_, value_});
+// LeakSanitizer scans both and would then report the block only after a LATER (innocent) case has overwritten them.
+// Dead stack and the caller-saved vector / integer registers are therefore wiped before every check, so that a leak is
+// attributed to the case that made it.
+static void __attribute__((noinline)) scrubStack() {
+	volatile char pad[1 << 18];
+	for (size_t i = 0; i != sizeof(pad); ++i) pad[i] = 0;
+}
+static inline void scrubRegs() {
+#if defined(__x86_64__)
+	if (__builtin_cpu_supports("avx")) {
+		__asm__ volatile("vzeroall" ::: "xmm0", "xmm1", "xmm2", "xmm3", "xmm4", "xmm5", "xmm6", "xmm7", "xmm8", "xmm9", "xmm10", "xmm11", "xmm12", "xmm13", "xmm14", "xmm15");
+	}
+	else {
+		__asm__ volatile("pxor %%xmm0,%%xmm0\n\tpxor %%xmm1,%%xmm1\n\tpxor %%xmm2,%%xmm2\n\tpxor %%xmm3,%%xmm3\n\tpxor %%xmm4,%%xmm4\n\tpxor %%xmm5,%%xmm5\n\t"
+		                 "pxor %%xmm6,%%xmm6\n\tpxor %%xmm7,%%xmm7\n\tpxor %%xmm8,%%xmm8\n\tpxor %%xmm9,%%xmm9\n\tpxor %%xmm10,%%xmm10\n\tpxor %%xmm11,%%xmm11\n\t"
+		                 "pxor %%xmm12,%%xmm12\n\tpxor %%xmm13,%%xmm13\n\tpxor %%xmm14,%%xmm14\n\tpxor %%xmm15,%%xmm15"
+		                 ::: "xmm0", "xmm1", "xmm2", "xmm3", "xmm4", "xmm5", "xmm6", "xmm7", "xmm8", "xmm9", "xmm10", "xmm11", "xmm12", "xmm13", "xmm14", "xmm15");
+	}
+	__asm__ volatile("xor %%ecx,%%ecx\n\txor %%edx,%%edx\n\txor %%esi,%%esi\n\txor %%edi,%%edi\n\txor %%r8d,%%r8d\n\txor %%r9d,%%r9d\n\txor %%r10d,%%r10d\n\txor %%r11d,%%r11d"
+	                 ::: "rcx", "rdx", "rsi", "rdi", "r8", "r9", "r10", "r11", "cc");
+#endif
+}
 static bool tainted = false;
 static int leakFlag() {
 	if (tainted) return 2;
+	scrubStack();
+	scrubRegs();
 	if (__lsan_do_recoverable_leak_check() != 0) { tainted = true; return 1; }
 	return 0;
 }
